@@ -554,6 +554,10 @@ class Interp:
                 return any(self.truth(x) for x in args[0])
             if n == 'all' and len(args) == 1 and isinstance(args[0], (list, tuple)):
                 return all(self.truth(x) for x in args[0])
+            if n == 'reversed' and len(args) == 1 and isinstance(args[0], (list, tuple, range)):
+                return TList(reversed(args[0]))
+            if n == 'zip' and args and all(isinstance(a, (list, tuple, range)) for a in args):
+                return TList(tuple(t) for t in zip(*args))
             if n == 'sorted' and len(args) == 1 and isinstance(args[0], (list, tuple)) and all(isinstance(x, int) for x in args[0]):
                 return TList(sorted(args[0]))
             if n == 'divmod' and len(args) == 2 and all(isinstance(a, int) for a in args) and args[1] != 0:
@@ -582,6 +586,14 @@ class Interp:
                     return o.pop(*args)
                 if fn.attr == 'index' and len(args) == 1:
                     return o.index(args[0])
+                if fn.attr == 'reverse' and not args:
+                    o.reverse()
+                    return None
+                if fn.attr == 'clear' and not args:
+                    o.clear()
+                    return None
+                if fn.attr == 'count' and len(args) == 1:
+                    return o.count(args[0])
                 raise Unknown(f'list method {fn.attr}')
             if isinstance(o, Obj) and o.cls is not None:
                 m = self.prog.resolve_method(o.cls, fn.attr)
